@@ -346,6 +346,50 @@ def rule_R2(text, log, struct_name="Error"):
     return "".join(out)
 
 
+def rule_R20(text, log):
+    """R20: cookie-factory's trait alias written out: `SerializeFn<X>` -> `Fn(WriteContext<X>) -> GenResult<X>` (its blanket
+    impl makes the two bounds the same set of types)"""
+    new, n = re.subn(r"\bSerializeFn<([^<>]*(?:<[^<>]*>)?[^<>]*)>", r"Fn(WriteContext<\1>) -> GenResult<\1>", text)
+    if n:
+        log.append("R20 SerializeFn<..> written out as its Fn bound (%d)" % n)
+    return new
+
+
+def rule_R21(text, log):
+    """R21: `tuple((a, b, c))` -> `tuple3(a, b, c)` (cookie-factory's arity-generic `tuple` named per arity; arguments verbatim)"""
+    out, pos, cnt = [], 0, 0
+    masked = mask_comments_and_strings(text)
+    for m in re.finditer(r"\btuple\(\(", masked):
+        if m.start() < pos:
+            continue
+        inner_open = m.end() - 1
+        inner_close = match_close(masked, inner_open)
+        outer_close = match_close(masked, m.end() - 2)
+        if masked[inner_close + 1:outer_close].strip() not in ("", ","):
+            continue
+        # top-level commas of the inner tuple
+        depth, args, a0 = 0, [], inner_open + 1
+        for k in range(inner_open + 1, inner_close):
+            ch = masked[k]
+            if ch in "([{":
+                depth += 1
+            elif ch in ")]}":
+                depth -= 1
+            elif ch == "," and depth == 0:
+                args.append((a0, k)); a0 = k + 1
+        if text[a0:inner_close].strip():
+            args.append((a0, inner_close))
+        inner = rule_R21(text[inner_open + 1:inner_close], log)      # nested tuples
+        # recompute on the rewritten inner text is not needed: arity comes from the original argument list
+        out.append(text[pos:m.start()] + "tuple%d(" % len(args) + inner.rstrip().rstrip(",") + ")")
+        pos = outer_close + 1
+        cnt += 1
+    out.append(text[pos:])
+    if cnt:
+        log.append("R21 tuple((..)) -> tupleN(..) (%d)" % cnt)
+    return "".join(out)
+
+
 def name_return(sig_and_body, ret_name, log):
     """R6: `-> T {`  =>  `-> (ret_name: T)` on the first fn signature of the text; returns
     (text_before_body, body) split so that a contract can be inserted."""
@@ -419,7 +463,7 @@ def contract_fn(text, opts, log, what):
     """text = one fn item (attrs + signature + body). Insert contract, apply rewrites."""
     text = rule_R0(text, log)
     for r in opts.get("rewrites", []):
-        text = {"R1": rule_R1, "R2": rule_R2}[r](text, log)
+        text = {"R1": rule_R1, "R2": rule_R2, "R20": rule_R20, "R21": rule_R21}[r](text, log)
     for sub in opts.get("subst", []):
         pat, rep = sub[0], sub[1]
         optional = len(sub) > 2 and sub[2] == "optional"
